@@ -208,6 +208,10 @@ pub trait Check: Sync {
     fn shrink(&self, _v: &Violation) -> Vec<Violation> {
         vec![]
     }
+    /// Optional human-readable description of the (minimised) case.
+    fn describe(&self, _v: &Violation) -> Option<String> {
+        None
+    }
 }
 
 /// Re-run a violation's scenario with its choice log; returns the violation
@@ -288,7 +292,8 @@ fn generic_candidates(v: &Violation) -> Vec<Violation> {
 
 fn weight(v: &Violation) -> usize {
     let sql: usize = v.scenario.sessions.iter().flatten().map(|s| s.sql.len()).sum();
-    sql * 4 + v.choices.iter().filter(|c| **c != 0).count() + v.choices.len() + if v.scenario.sim.noisy { 50 } else { 0 } + if v.scenario.table_dims.is_some() { 20 } else { 0 }
+    let disk: usize = v.scenario.disk.files.values().map(|b| b.len()).sum();
+    sql * 4 + disk + v.choices.iter().filter(|c| **c != 0).count() + v.choices.len() + if v.scenario.sim.noisy { 50 } else { 0 } + if v.scenario.table_dims.is_some() { 20 } else { 0 }
 }
 
 pub fn minimise(check: &dyn Check, mut v: Violation, budget: usize) -> Violation {
@@ -381,7 +386,17 @@ pub fn run_campaign(cfg: &CampaignCfg, check: &dyn Check) -> CampaignResult {
                         }
                         let mut st = Stats::default();
                         st.runs = 1;
-                        let vs = check.run_one(run, root.fork_idx("run", run), &mut st);
+                        let vs = match std::panic::catch_unwind(std::panic::AssertUnwindSafe(|| check.run_one(run, root.fork_idx("run", run), &mut st))) {
+                            Ok(vs) => vs,
+                            Err(_) => {
+                                // a panic on the harness side of a run (not inside the engine,
+                                // those are caught by the simulator): harness error
+                                let msg = crate::sim::take_last_panic().unwrap_or_else(|| "<panic>".into());
+                                eprintln!("harness error: run {run} panicked in the harness: {msg}");
+                                st.count("harness.panic");
+                                vec![]
+                            }
+                        };
                         per_run.lock().unwrap().insert(run, (st, vs));
                     }
                 })
@@ -459,7 +474,10 @@ pub fn run_campaign(cfg: &CampaignCfg, check: &dyn Check) -> CampaignResult {
     });
     for ((run, _), slot) in to_min.iter().zip(slots) {
         let run = *run;
-        let min = slot.into_inner().unwrap().expect("minimised");
+        let mut min = slot.into_inner().unwrap().expect("minimised");
+        if let Some(d) = check.describe(&min) {
+            min.detail = format!("{}\n{d}", min.detail);
+        }
         // a minimised violation may now match a known finding
         if let Some(k) = match_known(&known, &min, true) {
             stats.known += 1;
@@ -572,6 +590,10 @@ pub fn report(cfg: &CampaignCfg, res: &CampaignResult) -> i32 {
         res.stats.known,
         res.wall_s
     );
+    if res.stats.counters.get("harness.panic").copied().unwrap_or(0) > 0 {
+        println!("harness error: {} runs panicked inside the harness", res.stats.counters["harness.panic"]);
+        return 2;
+    }
     if res.violations.is_empty() && res.stats.violations == 0 { 0 } else { 1 }
 }
 
